@@ -22,7 +22,7 @@ def unimplemented(func: F) -> F:
 
     @wraps(func)
     def wrapper(*args: Any, **kwargs: Any) -> ReturnType:
-        raise NotImplementedException(f'Function "{getattr(func, "__qualname__", repr(func))}" is not implemented yet!')
+        raise NotImplementedException(f'Function "{func.__qualname__ if hasattr(func, "__qualname__") else repr(func)}" is not implemented yet!')
     return wrapper
 
 
